@@ -377,6 +377,13 @@ package chain
 //@   requires m != nil && m.store != nil
 //@   ensures [assumed:pool-unchanged] forall i int :: { m.txpool.v2txns[i] } 0 <= i && i < len(m.txpool.v2txns) ==> m.txpool.v2txns[i] == old(m.txpool.v2txns[i])
 //@   ensures [assumed:copies] forall i int :: { result0[i] } 0 <= i && i < len(result0) ==> isCopy(result0[i])
+// (what is checked of that: on success exactly one DeepCopy was made per input transaction, in the
+// copy loop -- the later in-place proof updates are assumed to keep the copies the function's own)
+//@   ghostvar ncopies int
+//@   aftercall DeepCopy : ncopies = ncopies + 1
+//@   loop "range txns" #2
+//@     invariant [one-copy-each] ncopies == rangeindex + 1 && rangeindex < len(txns)
+//@   ensures [copies-made] err == nil ==> ncopies == len(txns)
 //@   ensures [assumed:apart] !sameArray(result0, m.txpool.v2txns)
 //@   ensures [assumed:input-unchanged] forall i int :: { txns[i] } 0 <= i && i < len(txns) ==> txns[i] == old(txns[i])
 //@   ensures [unknown-basis] !(from.ID in states) ==> err != nil
@@ -428,12 +435,20 @@ package chain
 //@   ghostvar wcount int
 //@   aftercall revalidatePool : wcount = 0
 //@   aftercall V2TransactionWeight : wcount = wcount + 1
+//@   ghostvar ncopies int
+//@   aftercall revalidatePool : ncopies = 0
+//@   aftercall DeepCopy : ncopies = ncopies + 1
+//@   loop "range txns"
+//@     invariant [one-copy-each] ncopies == rangeindex + 1 && rangeindex < len(txns) && len(txns) == old(len(txns))
 //@   loop "range txns" #2
 //@     invariant m == old(m)
 //@     invariant nOld == preLen
 // (the pool's weight counter moves once per transaction actually appended: a transaction of the
 // set that is already pooled is skipped and is not counted again)
 //@     invariant [weight-per-append] wcount == len(m.txpool.v2txns) - preLen
+// (the set was deep-copied, one copy per transaction, before its proofs were touched and before
+// anything is pooled)
+//@     invariant [set-copied] ncopies == old(len(txns))
 //@     invariant nOld <= len(m.txpool.v2txns)
 //@     invariant len(m.txpool.txns) == preLen1
 //@     invariant m.txpool.indices == idxRef && idxRef != nil
